@@ -17,6 +17,41 @@ def S(stream, quick, thorough, **kw):
     return d
 
 PROPS = {
+    "C01": {
+        "file": "C01.v",
+        "streams": [S("cache", 250, 4000, focus="C01"), S("conc", 24, 400, timeout=2400)],
+        "claim": "Theorems over the whole-cache machine of CacheModel (typed machine cstep proved equal to the integer-encoded step the stream runs): for every validated configuration, every well-sharded sequence of Set/SetAsync/Sync/Get/GetWithTTL/Exists/Delete/Keys/Clear/Cleanup/Close/clock advances, every oracle event stream and all four policies, every lookup result is justified by the lossy-map reference `latest` (a hit is the latest successfully written value unless a SetAsync for that key is still queued, Exists/Keys only name keys whose latest state is a write, Keys has no duplicates), a successful Set on a resident key takes effect (or loses the key, never keeps the old value), Delete returns true iff the key was resident, a failed Set changes nothing, a SetAsync batch followed by Sync equals the same Sets applied synchronously, shards commute, a closed cache serves nothing. Shard-level: SieveProofs (lookup = table, rejected candidate absent, other keys unchanged or lost) and ClassicProofs. Concurrency: MutexAtomicity proves lock-protected sections atomic for every schedule; the conc stream checks real concurrent histories per key against the sequential specification (LinCheck windows) and replays deterministic schedules through the yield hooks. Tied to /repo by T-trace on the real cache (virtual clock; admission/ghost/adaptation decisions recorded as oracle events and re-checked by the model), with every third trace forcing async batches through the ring.",
+        "note": "Trusted: Coq kernel, extraction, driver, harness and hooks. The literal statement 'a hit returns latest' is refuted for the window in which an accepted SetAsync is still queued (c01_literal_refuted_async_visibility: intended asynchronous semantics; Sync/Set/Delete or a Sieve miss close it). The lock-free read path of SieveTinyLFU is covered by C02/C11/C12's table LTS, not by these sequential theorems.",
+        "assumptions": ["shard placement is an arbitrary fixed function shard_of (the implementation's hash placement is taken from the trace)", "TinyLFU admission, ghost hits and adaptation are oracle events, each checked by the model against its own state (serr); theorems hold for every event stream", "ShardCount <= 2^62 in cache_init_inv (F9)"],
+    },
+    "C03": {
+        "file": "C03.v",
+        "streams": [S("cache", 250, 4000, focus="C03"), S("cfg", 200, 3000), S("conc", 24, 400, timeout=2400)],
+        "claim": "Theorems: CacheInv (containing over_capacity = false for every shard) is preserved by every operation of every well-sharded history for every event stream, hence every shard holds at most its share of MaxSize entries and of MaxCost weight in every state between operations, len(Keys) <= Size <= MaxSize; an insert into a shard with room drops, rejects and notifies nothing; an unweighted insert drops at most one entry; an unlimited cache never drops. The SieveTinyLFU budget theorem (apply_sieve_budget_strong) covers adversarial states: every protected entry visited, every probation entry promotable, forced repair; it needs no assumption on the oracle stream. Shares sum to the configured totals (ConfigProofs.share_sum). Tied to /repo by T-trace (cache stream: per-shard size/cost compared after every operation, directed adversarial prefixes at capacities up to 1000), the cfg stream (shares) and the conc stream (budget monitors at quiescence under concurrent writers).",
+        "note": "Trusted: Coq kernel, extraction, driver, harness, hooks. LFU's budget clause is conditional on the implementation's victim pick being accepted by the model (serr = 0), which the stream checks on every trace. 'At every moment Keys reports at most MaxSize keys' is proved between operations; during a concurrent write the conc stream samples it. F1 (two evictions for one insert) was found here and fixed.",
+        "assumptions": ["per-shard, between operations; transient over-budget inside a write is inside the shard lock (MutexAtomicity.invariant_transfer)", "LFU: oracle pick accepted"],
+    },
+    "C05": {
+        "file": "C05.v",
+        "streams": [S("cache", 250, 4000, focus="C05"), S("conc", 24, 400, timeout=2400)],
+        "claim": "Theorems over the whole-cache machine with a virtual clock: TTL normalisation (DefaultExpiration, NoExpiration, other negatives, DefaultTTL 0/-1); a committed write stores deadline min(now+t, MaxInt64) for t>0 and 0 otherwise, never wrapping; an entry with 0<deadline<now is never returned by Get/GetWithTTL/Exists nor listed by Keys, and is served until then while resident; GetWithTTL's remaining time is -1 iff no deadline, else deadline-now in [0, ttl], strictly decreasing; a rewrite replaces the deadline; Cleanup removes exactly the expired entries, each logged, notified and counted once. Tied to /repo by T-trace with clock advances landing on and next to deadlines, TTLs from 1 ns to MaxInt64, both the inline and the queued (applyWriteBatch) stamping paths, plus concurrent expiry races (a fresh long-TTL rewrite is never reported expired; deterministic and free-running).",
+        "note": "Trusted: Coq kernel, extraction, driver, harness, virtual-clock hook (the monotonic clock itself is the runtime's). '-1 iff deadline 0' needs a non-negative clock (refuted at a negative clock; the implementation's clock starts at 0). F6 (deadline overflow) was found here and fixed.",
+        "assumptions": ["the cache clock is non-negative and monotone (time.Since of a fixed base)"],
+    },
+    "C06": {
+        "file": "C06.v",
+        "streams": [S("cache", 250, 4000, focus="C06"), S("conc", 24, 400, timeout=2400)],
+        "claim": "Theorems over ghost logs threaded through the model (glog: every write/replace/clear/drop; nlog: notifications): conservation for every (key,value) after every history (#written = #resident + #replaced + #cleared + #dropped), the notification log is exactly the dropped entries whose reason is in the listener mask, in order, once each; nothing is reported for a resident entry; an entry whose last event is a drop is not readable; reasons: deleted only by Delete of that key, expired only for 0<deadline<now met by Get/Exists/Cleanup, capacity only for a published entry displaced while writes are applied, rejected only under Sieve for the write's own unpublished candidate or an entry displaced by that write; replacement, Clear's and Close's clearing step stage nothing. Tied to /repo by T-trace with real listeners (OnRemove, OnEvict, both), notifications compared per operation, an independent Go ledger monitor, and concurrent histories with a value-unique ledger (stress, Close with staged notifications).",
+        "note": "Trusted: Coq kernel, extraction, driver, harness, hooks. Delivery (the notifier goroutine, its queue and ordering across shards) is outside the theorems: the model's staged list is compared with what the real listeners received after settling; loss at Close is searched by the closeNotify probe. F2 (unpublished candidate reported as capacity) was found here and fixed; F7 (listener calling Close) is recorded under C07/C08.",
+        "assumptions": ["notification delivery is asynchronous; comparison happens after the notifier has drained"],
+    },
+    "C10": {
+        "file": "C10.v",
+        "streams": [S("cache", 250, 4000, focus="C10"), S("conc", 24, 400, timeout=2400)],
+        "claim": "Theorems: in every state of every history total size = number of resident items = table sizes, total cost = sum of item costs when cost is tracked and = size otherwise, len(Keys) <= size; per shard the table domain equals the policy lists' members without duplicates and the counters equal their sizes; with stats on, hits/misses equal the ghost counts of Get/GetWithTTL outcomes, evictions the number of capacity drops and expirations the number of expiry drops in the ghost log (= notifications by C06), with stats off all stay 0. Tied to /repo by T-trace (Stats, Size, Cost and the per-shard (size,cost) pairs compared after operations; the internal-structure checker VerifCheckInvariants at every quiescent point) and by concurrent runs observed after quiescence (hits+misses = calls, Expirations = expiry notifications, structure checker).",
+        "note": "Trusted: Coq kernel, extraction, driver, harness, hooks (VerifCheckInvariants is an independent Go re-derivation of the structures). Atomic counters under concurrency are covered by the conc stream's quiescent-point checks, not by the sequential theorems.",
+        "assumptions": ["counters are compared at quiescent points"],
+    },
     "C17": {
         "file": "C17.v",
         "streams": [S("reg", 30, 400)],
